@@ -84,7 +84,7 @@ def finish_cmd(cmd, r=None):
 SUFFIXES_TARGET = ['.py'] * 9 + ['.pyw'] * 2
 SUFFIXES_OTHER = ['.PY', '.pyi', '.pyc', '.pyx', '.py~', '.txt', '', '.py.bak', '.pyw.orig', '.md', '.Py', '.pyww', '.cpy']
 BASES = ['a', 'b', 'mod', 'util', 'main', 'test_x', '__init__', 'conf', 'z9', 'data', 'x.y', 'py', 'pyw', 'setup',
-         'my mod', 'm\u00f3dulo', '-dash', 'a b.c', '\u65e5\u672c']
+         'my mod', 'm\u00f3dulo', '-dash', 'a b.c', '\u65e5\u672c', 'tool[ab]', 'toola', 'x*', 'q?']
 
 
 def gen_tree(r, max_files=12):
@@ -93,7 +93,7 @@ def gen_tree(r, max_files=12):
         parent = r.choice(dirs)
         if parent.count('/') >= 3:
             continue
-        name = r.choice(['sub', 'pkg', 'pkg.py', 'tests', '.hidden', 'data', 'lib.pyw', 'src'])
+        name = r.choice(['sub', 'pkg', 'pkg.py', 'tests', '.hidden', 'data', 'lib.pyw', 'src', 'pkg[1]', 'pkg1', 'pkg[1]', 'pkg1'])
         d = parent + '/' + name
         if d not in dirs:
             dirs.append(d)
